@@ -201,15 +201,55 @@ func checkC13(c *core.Ctx) {
 	c.Check("R1", "Validate checks dupdef for Unions against union branch names", p.Pos(fd.Pos()), len(branchSets) > 0 && consulted,
 		"no loop compares a union's own name with the names defined by union branches: `union Shape { 1 -> struct Circle {} }` followed by `union Circle {}` declares Circle twice")
 	// typeDefined recurses into array elements, map keys and map values
-	if td := p.FuncDecl(pkg, "typeDefined"); td != nil {
-		src := srcOf(p, td.Body)
-		c.Check("R1", "typeDefined descends into arrays", p.Pos(td.Pos()), strings.Contains(src, "typeDefined(*ft.Array"), "")
-		c.Check("R1", "typeDefined checks map keys", p.Pos(td.Pos()), strings.Contains(src, "allTypes[ft.Map.Key]"), "")
-		c.Check("R1", "typeDefined descends into map values", p.Pos(td.Pos()), strings.Contains(src, "typeDefined(ft.Map.Value"), "")
-		c.Check("R1", "typeDefined checks simple names", p.Pos(td.Pos()), strings.Contains(src, "allTypes[ft.Simple]"), "")
+	if td := p.FuncDecl(pkg, "typeDefined"); td != nil && td.Type.Params != nil && td.Type.Params.NumFields() == 2 {
+		var params []types.Object
+		for _, f := range td.Type.Params.List {
+			for _, n := range f.Names {
+				params = append(params, info.ObjectOf(n))
+			}
+		}
+		// selector path of an expression rooted at the FieldType parameter, e.g. ".Map.Value"
+		var pathOf func(e ast.Expr) (string, bool)
+		pathOf = func(e ast.Expr) (string, bool) {
+			switch x := ast.Unparen(e).(type) {
+			case *ast.Ident:
+				return "", len(params) == 2 && info.ObjectOf(x) == params[0]
+			case *ast.SelectorExpr:
+				pre, ok := pathOf(x.X)
+				return pre + "." + x.Sel.Name, ok
+			case *ast.StarExpr:
+				return pathOf(x.X)
+			case *ast.UnaryExpr:
+				return pathOf(x.X)
+			}
+			return "", false
+		}
+		recurse, lookup := map[string]bool{}, map[string]bool{}
+		ast.Inspect(td.Body, func(n ast.Node) bool {
+			switch x := n.(type) {
+			case *ast.CallExpr:
+				if cal := load.Callee(info, x); cal != nil && types.Object(cal) == info.ObjectOf(td.Name) && len(x.Args) == 2 {
+					if pth, ok := pathOf(x.Args[0]); ok {
+						recurse[pth] = true
+					}
+				}
+			case *ast.IndexExpr:
+				if id, ok := ast.Unparen(x.X).(*ast.Ident); ok && len(params) == 2 && info.ObjectOf(id) == params[1] {
+					if pth, ok := pathOf(x.Index); ok {
+						lookup[pth] = true
+					}
+				}
+			}
+			return true
+		})
+		c.Check("R1", "typeDefined descends into arrays", p.Pos(td.Pos()), recurse[".Array"], "no recursive call on the array element type")
+		c.Check("R1", "typeDefined checks map keys", p.Pos(td.Pos()), lookup[".Map.Key"], "the map key name is never looked up in the set of defined types")
+		c.Check("R1", "typeDefined descends into map values", p.Pos(td.Pos()), recurse[".Map.Value"], "no recursive call on the map value type")
+		c.Check("R1", "typeDefined checks simple names", p.Pos(td.Pos()), lookup[".Simple"], "the simple type name is never looked up in the set of defined types")
 	} else {
 		c.Undecide("typeDefined not found")
 	}
+	definedSetHoldsTypes(c, p, fd)
 
 	// ---- R2 index rules
 	for _, cfgx := range []struct {
@@ -447,4 +487,138 @@ func endsInReturnList(stmts []ast.Stmt) bool {
 	}
 	_, ok := stmts[len(stmts)-1].(*ast.ReturnStmt)
 	return ok
+}
+
+// definedSetHoldsTypes (R1c): the set of names typeDefined consults must hold
+// names of types and nothing else. Every key stored into that map (or into a
+// map it is an alias of) is traced to the collection it ranges over: the four
+// definition lists of the File, union branches, or the primitive table. A name
+// of any other origin (a const, an enum option, a field) in that set makes
+// `struct S { ThatName x; }` pass as a defined type.
+func definedSetHoldsTypes(c *core.Ctx, p *load.Prog, fd *ast.FuncDecl) {
+	pkg := p.Bebop()
+	info := pkg.TypesInfo
+	sets := map[types.Object]bool{}
+	ast.Inspect(fd.Body, func(n ast.Node) bool {
+		if call, ok := n.(*ast.CallExpr); ok && wire.Canon(call.Fun) == "typeDefined" && len(call.Args) == 2 {
+			if id, ok := ast.Unparen(call.Args[1]).(*ast.Ident); ok {
+				sets[info.ObjectOf(id)] = true
+			}
+		}
+		return true
+	})
+	// alias closure: a := b makes writes to either visible through both
+	for changed := true; changed; {
+		changed = false
+		ast.Inspect(fd.Body, func(n ast.Node) bool {
+			as, ok := n.(*ast.AssignStmt)
+			if !ok || len(as.Lhs) != len(as.Rhs) {
+				return true
+			}
+			for i := range as.Lhs {
+				l, lok := ast.Unparen(as.Lhs[i]).(*ast.Ident)
+				r, rok := ast.Unparen(as.Rhs[i]).(*ast.Ident)
+				if !lok || !rok {
+					continue
+				}
+				lo, ro := info.ObjectOf(l), info.ObjectOf(r)
+				if sets[lo] != sets[ro] {
+					sets[lo], sets[ro] = true, true
+					changed = true
+				}
+			}
+			return true
+		})
+	}
+	if len(sets) == 0 {
+		c.Undecide("Validate: no set of defined names is passed to typeDefined")
+		return
+	}
+	// range bindings of the function
+	rangeOf := map[types.Object]string{}
+	defOf := map[types.Object]ast.Expr{}
+	ast.Inspect(fd.Body, func(n ast.Node) bool {
+		switch x := n.(type) {
+		case *ast.RangeStmt:
+			for _, kv := range []ast.Expr{x.Key, x.Value} {
+				if id, ok := kv.(*ast.Ident); ok && id.Name != "_" {
+					rangeOf[info.ObjectOf(id)] = wire.Canon(x.X)
+				}
+			}
+		case *ast.AssignStmt:
+			if x.Tok == token.DEFINE && len(x.Lhs) == len(x.Rhs) {
+				for i, l := range x.Lhs {
+					if id, ok := l.(*ast.Ident); ok {
+						defOf[info.ObjectOf(id)] = x.Rhs[i]
+					}
+				}
+			}
+		}
+		return true
+	})
+	var origin func(e ast.Expr, depth int) string
+	origin = func(e ast.Expr, depth int) string {
+		if depth > 4 {
+			return ""
+		}
+		res := ""
+		ast.Inspect(e, func(n ast.Node) bool {
+			if res != "" {
+				return false
+			}
+			id, ok := n.(*ast.Ident)
+			if !ok {
+				return true
+			}
+			obj := info.ObjectOf(id)
+			if r, ok := rangeOf[obj]; ok {
+				res = r
+			} else if d, ok := defOf[obj]; ok {
+				res = origin(d, depth+1)
+			}
+			return true
+		})
+		return res
+	}
+	allowed := func(coll string) bool {
+		switch {
+		case coll == "primitiveTypes":
+			return true
+		case strings.HasSuffix(coll, ".Enums"), strings.HasSuffix(coll, ".Structs"), strings.HasSuffix(coll, ".Messages"), strings.HasSuffix(coll, ".Unions"):
+			return true
+		case strings.HasSuffix(coll, ".sortedFields()"):
+			// union branches define record types; message fields do not
+			return strings.HasPrefix(coll, "un.")
+		}
+		return false
+	}
+	n := 0
+	ast.Inspect(fd.Body, func(nd ast.Node) bool {
+		as, ok := nd.(*ast.AssignStmt)
+		if !ok {
+			return true
+		}
+		for _, l := range as.Lhs {
+			ix, ok := l.(*ast.IndexExpr)
+			if !ok {
+				continue
+			}
+			id, ok := ast.Unparen(ix.X).(*ast.Ident)
+			if !ok || !sets[info.ObjectOf(id)] {
+				continue
+			}
+			n++
+			coll := origin(ix.Index, 0)
+			key := fmt.Sprintf("Validate: names stored in the defined-type set come from types (%s <- %s)", id.Name, coll)
+			if coll == "" {
+				c.Undecide("Validate: the key %s stored into %s cannot be traced to a collection", wire.Canon(ix.Index), id.Name)
+				continue
+			}
+			c.Check("R1c", key, p.Pos(as.Pos()), allowed(coll),
+				fmt.Sprintf("%s[%s] records a name taken from %s in the set typeDefined consults: a field whose type is such a name passes as defined, and the generator emits it as a type", id.Name, wire.Canon(ix.Index), coll))
+		}
+		return true
+	})
+	c.Count("defined_set_writes", n)
+	c.Floor("defined_set_writes", 5)
 }
